@@ -95,7 +95,7 @@ class Source:
         hits = []
         for lo, hi, _ in self._container_ranges(impl, trait, mod):
             for i in self._depth_walk(lo, hi):
-                if sig[i].kind == 'id' and sig[i].text == 'fn' and i + 1 < hi and sig[i + 1].text == name:
+                if sig[i].kind == 'id' and sig[i].text == 'fn' and i + 1 < hi and sig[i + 1].text in (name, 'r#' + name):
                     hits.append(i)
         if len(hits) <= nth:
             raise LiftError(f'{self.rel}: fn `{name}` not found' + (f' in `{impl or trait or mod}`' if (impl or trait or mod) else ''))
